@@ -120,7 +120,7 @@ pub fn gen_parse_case(rng: &mut Rng, force_valid: bool) -> ParseCase {
         junk,
         src,
         only_k: None,
-        fault_kind: rng.below(ERR_KINDS.len()) as u8,
+        fault_kind: rng.below(14) as u8,
     }
 }
 
@@ -137,7 +137,9 @@ pub fn reference(case: &ParseCase) -> Transcript {
 
 pub fn run_scheduled(case: &ParseCase, fail_at: Option<usize>) -> (Transcript, SimSource) {
     let mut cfg = case.src.clone();
-    cfg.fail_at = fail_at.map(|k| (k + case.junk.len(), ERR_KINDS[case.fault_kind as usize % ERR_KINDS.len()]));
+    let (kind, os) = crate::source::fault_error(case.fault_kind as usize);
+    cfg.fail_at = fail_at.map(|k| (k + case.junk.len(), kind));
+    cfg.fail_os = if fail_at.is_some() { os } else { None };
     let src = SimSource::new(full_data(case), cfg);
     let t = transcript(&case.cfg, &case.ctor, src.clone(), case.junk.len());
     (t, src)
@@ -576,7 +578,7 @@ impl Prop for C04 {
         let (ok_calls, trace0) = note_source(st, &src0, case);
         st.hit(["input.valid", "input.mutated", "input.arbitrary"][case.class as usize % 3]);
         st.hit(&format!("parser.{}", case.cfg.kind.name()));
-        let kind = ERR_KINDS[case.fault_kind as usize % ERR_KINDS.len()];
+        let (kind, os) = crate::source::fault_error(case.fault_kind as usize);
         let mut violation: Option<Violation> = None;
         let mut fired_n = 0u64;
         let mut t = Fnv::default();
@@ -593,7 +595,10 @@ impl Prop for C04 {
             if fired {
                 fired_n += 1;
                 st.hit("fault.terminal_error_fired");
-                st.hit(&format!("fault.kind.{}", kind_name(kind)));
+                st.hit(&match os {
+                    Some(code) => format!("fault.os_error.{code}"),
+                    None => format!("fault.kind.{}", kind_name(kind)),
+                });
             } else {
                 st.hit("fault.armed_but_never_reached");
             }
